@@ -6,6 +6,8 @@ break; the title/byline derived from the output (reference rule: text after the 
 picotool's own get_title/get_byline on the re-parsed output) equal those of the two comments; no other comment survives;
 and the significant tokens are unchanged (vf.minify.align, C01's oracle), so no comment became code or vice versa.
 """
+import os
+
 from .. import progen, layout, reflex, minify
 
 LEVEL = 'exploration'
@@ -83,12 +85,50 @@ def check_one(ctx, src, scopes, config, case):
         ctx.feature('no_code')
     if not src.endswith(b'\n'):
         ctx.feature('no_final_newline')
+    keep_file = None
+    if config in ('keep_file', 'cli_keep_file', 'cli'):
+        import tempfile
+        tmpd = tempfile.mkdtemp(prefix='vf-c19-')
+        keep_file = os.path.join(tmpd, 'names.txt')
+        minify.write_keep_file(keep_file, [b'keepme', b'x', b'player'], ctx.rng)
     try:
-        L, out = minify.minify_lib(src, config)
-    except Exception as e:
-        ctx.violation('luamin raised %r' % (e,), case)
-        return
+        try:
+            if config.startswith('cli'):
+                # `p8tool luamin [--keep-names-from-file f] cart.p8`: the cart writer runs the Lua writer twice per write
+                from pico8 import tool
+                from .. import refcodec as rc, carts
+                regions, _ = carts.random_regions(ctx.rng, 'zero')
+                p1 = os.path.join(tmpd, 'h.p8')
+                with open(p1, 'wb') as fh:
+                    fh.write(rc.write_p8(regions, src, version=8))
+                argv = ['-q', 'luamin'] + (['--keep-names-from-file', keep_file] if config == 'cli_keep_file' else []) + [p1]
+                if tool.main(argv):
+                    raise RuntimeError('p8tool luamin failed')
+                out = rc.read_p8(open(os.path.join(tmpd, 'h_fmt.p8'), 'rb').read())['code']
+                if not src.endswith(b'\n') and out.endswith(b'\n'):
+                    out = out[:-1] if not out[:-1].endswith(b'\n') or True else out
+                ctx.monitor('cli_runs')
+            else:
+                L, out = minify.minify_lib(src, 'keep_file' if config == 'keep_file' else config, keep_file)
+                if config == 'keep_file':
+                    # second pass on the same Lua object with the same arguments, as the cart writer does
+                    from pico8.lua import lua as _lua
+                    args = {'keep_names_from_file': keep_file}
+                    o1 = b''.join(L.to_lines(writer_cls=_lua.LuaMinifyTokenWriter, writer_args=args))
+                    o2 = b''.join(L.to_lines(writer_cls=_lua.LuaMinifyTokenWriter, writer_args=args))
+                    if o1 != out or o2 != out:
+                        ctx.violation('repeated minification of the same Lua object gives different output (pass 2 %s)' % (
+                            'differs' if o2 != out else 'same'), case)
+                        return
+        except Exception as e:
+            ctx.violation('luamin raised %r' % (e,), case)
+            return
+    finally:
+        if keep_file:
+            import shutil
+            shutil.rmtree(tmpd, ignore_errors=True)
     ctx.monitor('minifier_runs')
+    ctx.feature('config:' + config)
     want_prefix = b''.join(h.raw + b'\n' for h in hdr[:2])
     ctx.monitor('header_prefixes_checked')
     if not out.startswith(want_prefix):
@@ -159,7 +199,9 @@ def run_shard(spec, ctx):
             continue
         if 'same-line-code' in kinds and body_kind != 'none':
             ctx.feature('code_on_header_line')
-        config = rng.choice(('default', 'default', 'keep_all'))
+        config = rng.choice(('default', 'default', 'keep_all', 'keep_file', 'cli', 'cli_keep_file'))
+        if config.startswith('cli') and (b'\r' in src or body_kind == 'none'):
+            config = 'default'
         check_one(ctx, src, scopes, config, {'src': src, 'config': config, 'scopes': [list(s) for s in scopes]})
         if i == 0:
             ctx.sample({'source': src[:200]})
@@ -179,6 +221,9 @@ def gates(m, tier):
               'no_final_newline'):
         if f.get(k, 0) < 10:
             missed.append('%s seen %d times' % (k, f.get(k, 0)))
+    for c in ('default', 'keep_all', 'keep_file', 'cli', 'cli_keep_file'):
+        if f.get('config:' + c, 0) < 20:
+            missed.append('configuration %s: %d' % (c, f.get('config:' + c, 0)))
     if mon.get('titles_compared', 0) < 200:
         missed.append('titles compared: %d' % mon.get('titles_compared', 0))
     return missed
